@@ -5,8 +5,17 @@ package airgapped
 import (
 	"github.com/corestario/kyber"
 
+	client "github.com/lidofinance/dc4bc/client/types"
 	"github.com/lidofinance/dc4bc/dkg"
 )
+
+// VerifErrorResult returns the result the machine writes when its handler for o fails with e
+// (the product's own writeErrorRequestToOperation, so that the harness never invents the format).
+func (am *Machine) VerifErrorResult(o client.Operation, e error) (*client.Operation, error) {
+	o.ResultMsgs = nil
+	err := am.writeErrorRequestToOperation(&o, e)
+	return &o, err
+}
 
 func (am *Machine) VerifSecKey() kyber.Scalar { return am.secKey }
 func (am *Machine) VerifBaseSeed() []byte     { return am.baseSeed }
